@@ -16,8 +16,8 @@ comment scanner driven by the real tokenizer's COMMENTS table):
                 TokenError: 0 <= start <= end <= len(sql) and the quoted snippet == sql[start:end]
  (6) nodes    : every parsed node carrying meta start/end (Identifier, Star, Literal, Anonymous/func ...): the span
                 is token-aligned, in bounds, its (line, col) == linecol(sql, end); an Identifier's name occurs in
-                the text of the tokens inside its span; the parts of a Column / Table are in source order and
-                separated by DOT tokens only.
+                the text of the tokens inside its span; the parts of a Column / Table are in source order
+                (what lies between two parts is dialect business: tsql `t.#tmp` has DOT HASH).
 
 Stated exclusions (both by token kind, never by input):
 * zero-width marker tokens (TokenType.HIVE_TOKEN_STREAM, injected by the Athena tokenizer, text "") are not lexemes
@@ -696,10 +696,6 @@ def check_one(d, sql, do_parse=True):
                 if ea >= sb:
                     viol.append((f"c13:node-span:{cls}:parts-out-of-source-order", f"{cls} parts {a.name[:20]!r}[{sa},{ea}] {b.name[:20]!r}[{sb},{eb}]"))
                     continue
-                between = [k for k in toks if k.ok and k.start > ea and k.end < sb]
-                if not between or any(k.type != TokenType.DOT for k in between):
-                    viol.append((f"c13:node-span:{cls}:parts-not-joined-by-dots",
-                                 f"{cls} parts {a.name[:20]!r}[{sa},{ea}] {b.name[:20]!r}[{sb},{eb}] separated by {[k.type.name for k in between][:5]}"))
     return out
 
 
